@@ -72,6 +72,9 @@ var checks = map[string][]HarnessSpec{
 		{Name: "verifC12RData", Pkg: "./dns", Labels: []string{"decoded", "rejected"}, Quick: TierOpts{LoopLimit: 300}, Thorough: TierOpts{LoopLimit: 300}},
 		{Name: "verifC12Resolve", Pkg: ".", Labels: []string{"resolved-or-error"}},
 		{Name: "verifC12Cycles", Pkg: "./dns", Labels: []string{"rejected"}, Quick: TierOpts{LoopLimit: 300}, Thorough: TierOpts{LoopLimit: 300}},
+		{Name: "verifC12Params", Pkg: "./dns", Labels: []string{"decoded", "rejected"}, Quick: TierOpts{LoopLimit: 300}, Thorough: TierOpts{LoopLimit: 300}},
+		{Name: "verifC12Memory", Pkg: "./dns", Labels: []string{"rejected"}, Quick: TierOpts{LoopLimit: 300}, Thorough: TierOpts{LoopLimit: 300}},
+		{Name: "verifC12FarPointers", Pkg: "./dns", Labels: []string{"rejected"}, Quick: TierOpts{LoopLimit: 600}, Thorough: TierOpts{LoopLimit: 600}},
 	},
 	"C13": {
 		{Name: "verifC13RoundTrip", Pkg: "./dns", Labels: []string{"roundtrip"}},
